@@ -52,6 +52,7 @@ def leg_t(wd, tier, binary, verdict, stub=""):
     log("  T: concurrent renters: %d attempts, %d commits in %d traces" %
         (c["counts"].get("concurrent_attempts", 0), c["counts"].get("concurrent_commits", 0), c["traces"]))
     d["conc"] = c
+    d["ovf"] = H.leg_overflow(wd, binary, verdict, stub=stub)
     return d
 
 
@@ -79,7 +80,9 @@ def run(tier):
         "concurrent": {"traces": cc["traces"], "events": cc["events"], "accepted": cc["accepted"], "rejected": cc["rejected"],
                        "attempts": cc["counts"].get("concurrent_attempts", 0), "commits": cc["counts"].get("concurrent_commits", 0)},
         "driver_counts": tt["counts"],
-        "evaluations": rr["steps"] + tt["events"] + cc["events"], "distinct_nontrivial": rr["distinct"] + tt["traces"] + cc["traces"],
+        "amount_overflow": {"traces": tt["ovf"]["traces"], "events": tt["ovf"]["events"], "accepted": tt["ovf"]["accepted"],
+                            "rejected": tt["ovf"]["rejected"], "counts": tt["ovf"]["counts"]},
+        "evaluations": rr["steps"] + tt["ovf"]["events"] + tt["events"] + cc["events"], "distinct_nontrivial": rr["distinct"] + tt["traces"] + cc["traces"],
         "rule": "R: one evaluation per spec transition executed on the real host; T: one evaluation per recorded stream step (sequential) "
                 "or per recorded Contractor call (concurrent) validated by TLC; distinct by (action, arguments, resulting state) resp. by trace",
     }
